@@ -56,7 +56,9 @@ ASSUMES = [
     "T-gen: the meaning of each numpy / numba operation of the kernels (coq/Lib/NpVec.v: IEEE specials, x/0 = NaN or "
     "+-inf as the compiled parallel kernels give, NaN-skipping nanmin/nanmax/nanmean, repeat / reshape / T / flatten / "
     "boolean-mask assignment and indexing, negative index wrap-around, partial operations fail) is hand-written and "
-    "validated only through the correspondence of the model it is proved equal to; float32 storage of the result "
+    "validated only through the correspondence of the model it is proved equal to; x/0 follows the default build "
+    "(PANDORA_NUMBA_PARALLEL unset or True: NaN / +-inf; with PANDORA_NUMBA_PARALLEL=False the compiled kernels raise "
+    "ZeroDivisionError on a volume whose finite costs are all equal -- outside the property's domain); float32 storage of the result "
     "arrays and float rounding are outside it (bridging rule b); np.percentile is a parameter of the generated "
     "normalize_with_percentile (contract: linear interpolation); interval_regularization, std_intensity and "
     "allocate_confidence_map are NOT translated (hand-written model, correspondence only)",
